@@ -98,4 +98,22 @@ CHECKS['C11'] = {
           'totality of straight-line decoders; CPU budget measured on the implementation under a per-call alarm',
   'technique': 'Coq proof (progress per loop, induction) + source inventory translator (fail-closed) + exhaustive short-input / mutation runs under CPU alarm',
 }
+CHECKS['C12'] = {
+  'text': 'The full statement (at most one live connection or attempt) is REFUTED by a kernel-checked 4-event witness (retry timer fires while an attempt is pending: '
+          'known finding C12-retry-while-connecting). Proved for every decoder behaviour, world and event: every message written in a step goes to the connection the '
+          'FSM tracks (C12_writes_to_tracked). The oracle checks live<=1, writes-to-tracked and no-open-untracked-connection after every step of an exhaustive '
+          'de-duplicated exploration with retry time below/equal/above the connect timeout; every explored path is replayed on the Coq model.',
+  'note': 'partial: the at-most-one clause holds only outside the two known findings (C12-retry-while-connecting, C12-start-while-connecting), which is established '
+          'by exploration, not by a theorem; Twisted stub connector (no timeout of its own: the driver fails attempts)',
+  'technique': 'Coq proof (writes-to-tracked, generic preservation over generated FSM) + kernel-checked refutation witness + exploration correspondence',
+}
+CHECKS['C13'] = {
+  'text': 'Coq theorems for every decoder behaviour: what a stop does (Idle, automatic start off, all timers cancelled: C13_stop_effects; Cease then close when '
+          'Established: C13_stop_sends_cease); from the stopped state no event sequence of any length without a manual start writes a message or starts a connection '
+          '(C13_silent_after_stop, induction over event lists); manual start connects at once / is a no-op when up. The full statement is refuted by a witness (stop with '
+          'an attempt in flight: known finding). Oracle: stop issued in every explored abstract state, bounded continuations, then start; traces replayed on the model.',
+  'note': 'the stopped state requires no pending attempt and no second open connection at stop time (known findings C13-stop-does-not-abort-attempt, '
+          'C13-stop-leaves-untracked-connection); that a stop in the single-connection regime reaches the stopped state is checked by exploration',
+  'technique': 'Coq proof (symbolic execution of the generated FSM, invariant by induction) + refutation witness + exploration correspondence',
+}
 NOT_CLAIMED = {}
